@@ -19,6 +19,7 @@ CONSTANTS
   BootAll = FALSE
   MaxRank = 4
   AllRanks = TRUE
+  AllowMulti = TRUE
   AllowBadMerge = TRUE
   AllowBad = FALSE
   PubWeight = 1
